@@ -356,12 +356,21 @@ findTypeLoop:
 
 	// If needed, reorder the chunks or introduce extension records.
 	isTooLarge := false
-	var total uint32
+	var total, tablePos uint32
 	for i := range chunks {
 		code := chunks[i].code
-		if code&chunkTypeMask == chunkTable && total > 0xFFFF {
-			isTooLarge = true
-			break
+		switch code & chunkTypeMask {
+		case chunkTable:
+			// lookup offsets are relative to the start of the lookup list
+			if total > 0xFFFF {
+				isTooLarge = true
+			}
+			tablePos = total
+		case chunkSubtable:
+			// subtable offsets are relative to the start of the lookup table
+			if total-tablePos > 0xFFFF {
+				isTooLarge = true
+			}
 		}
 		total += chunks[i].size
 	}
@@ -499,6 +508,25 @@ func (ll LookupList) tryReorder(chunks []layoutChunk) []layoutChunk {
 		panic("too much data for lookup list table")
 	}
 
+	// The subtables of the biggest lookup follow its lookup table.  If the
+	// 16-bit offset of one of these subtables would overflow, the biggest
+	// lookup needs extension records, too.
+	{
+		l := ll[biggestLookup>>14]
+		offs := uint32(6 + 2*len(l.Subtables))
+		if l.Meta.LookupFlags&UseMarkFilteringSet != 0 {
+			offs += 2
+		}
+		for _, subtable := range l.Subtables {
+			if offs > 0xFFFF {
+				replace[biggestLookup] = true
+				extra += len(l.Subtables)
+				break
+			}
+			offs += uint32(subtable.encodeLen())
+		}
+	}
+
 	res := make([]layoutChunk, 0, len(chunks)+extra)
 	var moved, ext []layoutChunk
 	for _, chunk := range chunks {
@@ -508,19 +536,20 @@ func (ll LookupList) tryReorder(chunks []layoutChunk) []layoutChunk {
 		switch {
 		case tp == chunkHeader:
 			res = append(res, chunk)
+		case replace[tCode] && tp == chunkSubtable:
+			sCode := code & chunkSubtableMask
+			rec := layoutChunk{
+				code: chunkExtReplace | tCode | sCode,
+				size: 8,
+			}
+			if tCode == biggestLookup {
+				moved = append(moved, rec)
+			} else {
+				res = append(res, rec)
+			}
+			ext = append(ext, chunk)
 		case tCode == biggestLookup:
 			moved = append(moved, chunk)
-		case replace[tCode]:
-			sCode := code & chunkSubtableMask
-			if tp == chunkSubtable {
-				res = append(res, layoutChunk{
-					code: chunkExtReplace | tCode | sCode,
-					size: 8,
-				})
-				ext = append(ext, chunk)
-			} else {
-				res = append(res, chunk)
-			}
 		default:
 			res = append(res, chunk)
 		}
